@@ -458,6 +458,14 @@ func (w *World) RunLedger(o LedgerOpts) {
 						amts = append(amts, w.amount(Position(l, e.s.ID, e.a.ID, e.o.Addr()), false))
 					}
 				}
+				if r.Intn(4) == 0 {
+					// the same operator named twice in one message (two parts of the position)
+					half := pos.QuoRaw(3)
+					if half.IsPositive() {
+						w.NativeUndelegateMulti(d.s, []*Oper{d.o, d.o}, []sdkmath.Int{half, half})
+						continue
+					}
+				}
 				if len(os) >= 2 {
 					w.NativeUndelegateMulti(d.s, os, amts)
 					continue
